@@ -271,8 +271,34 @@ type CallResult struct {
 	Stack    string // goroutine dump when the call did not return
 }
 
-// Call runs f in its own goroutine and waits at most d for it to return.
+// LoadFactor is >= 1: how much longer than on an idle machine things may take right now (1-minute load average
+// per CPU, capped at 8).  Real-time deadlines of the harnesses are stretched by it so that a busy machine is
+// not mistaken for a blocked call.
+func LoadFactor() float64 {
+	b, err := os.ReadFile("/proc/loadavg")
+	if err != nil {
+		return 1
+	}
+	var l1 float64
+	if _, err := fmt.Sscanf(string(b), "%f", &l1); err != nil {
+		return 1
+	}
+	f := l1 / float64(runtime.NumCPU())
+	if f < 1 {
+		return 1
+	}
+	if f > 8 {
+		return 8
+	}
+	return f
+}
+
+// Stretch scales a real-time deadline by the current load factor.
+func Stretch(d time.Duration) time.Duration { return time.Duration(float64(d) * LoadFactor()) }
+
+// Call runs f in its own goroutine and waits at most d (stretched by the load factor) for it to return.
 func Call(d time.Duration, f func()) CallResult {
+	d = Stretch(d)
 	done := make(chan CallResult, 1)
 	go func() {
 		defer func() {
@@ -295,7 +321,7 @@ func Call(d time.Duration, f func()) CallResult {
 
 // Eventually polls cond until true or timeout.
 func Eventually(d time.Duration, cond func() bool) bool {
-	deadline := time.Now().Add(d)
+	deadline := time.Now().Add(Stretch(d))
 	for {
 		if cond() {
 			return true
